@@ -138,7 +138,7 @@ def run(rep, tier, seed):
     rep.encoded("rust/src/basilisp_native/seq.rs", [], "the native LazySeq/Cons/Sequence run concretely (compiled module); not symbolically executed")
     rep.encoded_lisp("src/basilisp/core.lpy", ["lazy-seq", "map", "filter", "concat", "iterate", "take", "range", "seq"], "compiled from source, executed under CrossHair")
     kinds = ["lazy-seq", "map", "filter-map", "concat", "concat-2-2", "mapcat", "lazy-cat", "iterate", "py-iterable"]
-    nops = 3 if quick else 4
+    nops = 3
     to = 90 if quick else 200
     specs = []
     for k in kinds:
@@ -149,7 +149,11 @@ def run(rep, tier, seed):
             specs.append(spec(k, nops, tk, None, nmax, opset="python-protocol"))
         for t in range(nmax):
             specs.append(spec(k, nops, tk, t, nmax))
-    rep.bounds = {"elements": "<= 3", "consumption steps": nops, "producers": kinds}
+        if not quick and k in ("lazy-seq", "map", "concat"):
+            # thorough: the quick obligations with a doubled budget, plus 4 consumption steps for three producers
+            specs.append(spec(k, 4, 600, None, nmax))
+            specs.append(spec(k, 4, 600, None, nmax, opset="python-protocol"))
+    rep.bounds = {"elements": "<= 3", "consumption steps": "3 (4 for lazy-seq / map / concat in the thorough tier)", "producers": kinds}
     rep.outside = ["multi-threaded consumers, deadlock freedom: NOT APPLICABLE to this technique here (native Rust under parking_lot + GIL; see DESIGN section 5)",
                    "the Rust code itself is executed, not encoded", "count / reduce as consumers"]
     rep.trusted += ["crosshair-tool 0.0.110 + z3", "offset model of a lazy sequence (vlib/props/c06.py)"]
